@@ -47,6 +47,7 @@ func init() {
 		}
 		ruleHNSWLayerSearch(r, "C12.FRONTIER", true)
 		ruleHNSWNeighbourTable(r, "C12.ORD")
+		ruleHNSWEdgeBudget(r, "C12.BUDGET")
 		ruleHNSWLinkEntry(r, "C12")
 		ruleHNSWOrder(r, "C12")
 		ruleFlushRetention(r, "C12.FLUSH", k)
@@ -145,6 +146,7 @@ func init() {
 		w := r.W
 		ruleHNSWLayerSearch(r, "C15.FRONTIER", true)
 		ruleHNSWNeighbourTable(r, "C15.ORD")
+		ruleHNSWEdgeBudget(r, "C15.BUDGET")
 		ruleHNSWOrder(r, "C15")
 		ruleHNSWDefaults(r, "C15.DEFAULTS")
 		for _, kn := range []string{"ivf", "ivfpq"} {
